@@ -151,14 +151,22 @@ def ckOp (cap : Option Nat) (hasHandler : Bool) (s : CkSt) (op : HOp) (o : HObs)
       else ckEvents hasHandler none s1 o.evs false
     | _ => ckEvents hasHandler none s1 o.evs false
 
-def ckHistory (cap : Option Nat) (hasHandler : Bool) : CkSt → List HOp → List HObs → Ck Unit
-  | s, [], [] =>
-    if s.entered < s.accepted.length then viol "C08" "history closed but an accepted metric was never handed over"
-    else if s.live.isEmpty && !s.dropped then viol "C09" "every handle dropped but the wrapped sink was never dropped"
-    else pure ()
+/-- the per-operation clauses over a whole history -/
+def ckOps (cap : Option Nat) (hasHandler : Bool) : CkSt → List HOp → List HObs → Ck CkSt
+  | s, [], [] => pure s
   | s, op :: ops, o :: os => do
     let s' ← ckOp cap hasHandler s op o
-    ckHistory cap hasHandler s' ops os
+    ckOps cap hasHandler s' ops os
   | _, _, _ => viol "C20" "observation list does not match the history"
+
+/-- the clauses on a closed history (every handle finally dropped, every gate opened) -/
+def ckClose (s : CkSt) : Ck Unit :=
+  if s.entered < s.accepted.length then viol "C08" "history closed but an accepted metric was never handed over"
+  else if s.live.isEmpty && !s.dropped then viol "C09" "every handle dropped but the wrapped sink was never dropped"
+  else pure ()
+
+def ckHistory (cap : Option Nat) (hasHandler : Bool) (s : CkSt) (ops : List HOp) (os : List HObs) : Ck Unit := do
+  let s' ← ckOps cap hasHandler s ops os
+  ckClose s'
 
 end Queue
